@@ -223,6 +223,7 @@ class Evaluator:
         self.terms = []                    # registry of opaque per-residue terms (Rat)
         self.int_atoms = set()             # atoms known to be non-negative integers (parity analysis)
         self.universe = LETTERS            # characters an element of the sequence string may be
+        self.model_ctors = False           # model ClassName(...) as an object value carrying its arguments
         self.last_loop = None              # summary of the most recent element loop (raises per character)
         self.opaque_calls = {}             # FuncInfo.key -> atom name (do not inline)
         self.trace = []                    # loop summaries for evidence
@@ -849,6 +850,10 @@ class Evaluator:
                     c = ("cmp", Rat.atom("cnt[%s]" % a), ">=", Rat.const(1))
                     return c if name == "In" else c_not(c)
                 return name != "In"
+            if (a is None or isinstance(a, (int, float, bool))) and isinstance(b, (list, tuple)) \
+                    and all(isinstance(x, (str, int, float)) or x is None for x in b):
+                r = a in b
+                return r if name == "In" else not r
             if isinstance(a, str) and isinstance(b, (str, list, tuple, set, frozenset, dict)):
                 r = a in b
                 return r if name == "In" else not r
@@ -953,6 +958,21 @@ class Evaluator:
                     raise Undecided("comprehension element not constant per letter", fr.f.loc(node))
                 table[L] = v.const_value()
             return SeqV("map", self.elkey_for(table))
+        if isinstance(it, (list, tuple, str)) and isinstance(g.target, ast.Name):
+            out = []
+            for item in it:
+                e2 = dict(env)
+                e2[g.target.id] = item
+                keep = True
+                for cnd in g.ifs:
+                    c = self.cond(cnd, e2, fr)
+                    if c is False:
+                        keep = False
+                    elif c is not True:
+                        raise Undecided("comprehension filter on symbolic value", fr.f.loc(node))
+                if keep:
+                    out.append(self.eval(node.elt, e2, fr))
+            return out
         raise Undecided("list comprehension not modelled", fr.f.loc(node))
 
     def global_value(self, g, fr, node):
@@ -1201,6 +1221,8 @@ class Evaluator:
                     return list(base.values())
                 if fn.attr in ("upper", "lower") and isinstance(base, str):
                     return getattr(base, fn.attr)()
+                if fn.attr in ("upper", "lower") and (base is None or isinstance(base, (Rat, list, tuple, dict, int, float))):
+                    raise _Raised("AttributeError")
                 if fn.attr == "count" and isinstance(base, SeqV) and base.kind == "seq" and len(args) == 1:
                     a = self.eval(args[0], env, fr)
                     if isinstance(a, str) and len(a) == 1 and a in self.universe:
@@ -1231,6 +1253,11 @@ class Evaluator:
             if callable(oc):
                 ps = callee.params()[1:] if callee.cls else callee.params()
                 b = {}
+                if callee.cls and isinstance(fn, ast.Attribute):
+                    try:
+                        b["self"] = self.eval(fn.value, env, fr)
+                    except Undecided:
+                        b["self"] = None
                 for i, a in enumerate(args):
                     b[ps[i] if i < len(ps) else "*%d" % i] = self.eval(a, env, fr)
                 for k, v in kw.items():
@@ -1248,6 +1275,16 @@ class Evaluator:
             if isinstance(fn, ast.Attribute):
                 self_obj = self.eval(fn.value, env, fr)
             if callee.name == "__init__":
+                if self.model_ctors:
+                    ps = callee.params()[1:]
+                    flds = {}
+                    for i, a in enumerate(args):
+                        flds["arg:" + (ps[i] if i < len(ps) else str(i))] = self.eval(a, env, fr)
+                    for k, v in kw.items():
+                        flds["arg:" + k] = self.eval(v, env, fr)
+                    if callee.cls == "Sequence" and "arg:seq" in flds:
+                        flds["seq"] = flds["arg:seq"]
+                    return ObjV(callee.cls, flds)
                 raise Undecided("constructor call %s in a numeric context" % unparse(node)[:40], fr.f.loc(node))
             if not isinstance(self_obj, ObjV):
                 raise Undecided("receiver of %s is not a modelled object" % callee.qual, fr.f.loc(node))
